@@ -15,7 +15,10 @@ import (
 	"io"
 	"math/rand"
 	"os"
+	"strings"
 	"testing"
+
+	"golang.org/x/net/http2/hpack"
 )
 
 func vfFrameBytes(typ, flags byte, sid uint32, rbit bool, payload []byte) []byte {
@@ -681,4 +684,177 @@ func TestVFC19Write(t *testing.T) {
 		}
 	}
 	res.Paths = res.Steps
+}
+
+// ---------------------------------------------------------------- C. header blocks through ReadMetaHeaders (H2Meta.tla)
+
+type vfMetaState struct {
+	Hist  []string `json:"hist"`
+	Table []int    `json:"table"`
+	Out   struct {
+		R   string `json:"r"`
+		Dyn []int  `json:"dyn"`
+	} `json:"out"`
+}
+
+func vfHInt(prefix uint, first byte, n int) []byte {
+	max := (1 << prefix) - 1
+	if n < max {
+		return []byte{first | byte(n)}
+	}
+	b := []byte{first | byte(max)}
+	n -= max
+	for n >= 128 {
+		b = append(b, byte(n%128+128))
+		n /= 128
+	}
+	return append(b, byte(n))
+}
+func vfHStr(s string) []byte { return append(vfHInt(7, 0, len(s)), s...) }
+
+// literal with incremental indexing, new name
+func vfHIncr(name, value string) []byte {
+	return append(append([]byte{0x40}, vfHStr(name)...), vfHStr(value)...)
+}
+
+// literal without indexing, new name
+func vfHLit(name, value string) []byte {
+	return append(append([]byte{0x00}, vfHStr(name)...), vfHStr(value)...)
+}
+
+var vfMetaPseudo = []byte{0x82, 0x87, 0x84, 0x01, 1, 'a'} // :method GET, :scheme https, :path /, :authority a
+
+func vfMetaEntry(n int) (string, string) { return fmt.Sprintf("x-entry-%d", n), fmt.Sprintf("v%d", n) }
+
+// vfMetaBlock: the frames of block number n (1-based) of the given kind on stream sid; tableLen = entries already in the table
+func vfMetaBlock(kind string, n int, sid uint32, table []int) []byte {
+	en, ev := vfMetaEntry(n)
+	var blk []byte
+	switch kind {
+	case "ok", "okcont":
+		blk = append(append([]byte{}, vfMetaPseudo...), vfHIncr(en, ev)...)
+	case "upper":
+		blk = append(append(append([]byte{}, vfMetaPseudo...), vfHLit("X-Upper", "1")...), vfHIncr(en, ev)...)
+	case "badvalue":
+		blk = append(append(append([]byte{}, vfMetaPseudo...), vfHLit("x-bad", "a\nb")...), vfHIncr(en, ev)...)
+	case "latepseudo":
+		blk = append(append(vfHLit("x-first", "1"), vfMetaPseudo...), vfHIncr(en, ev)...)
+	case "toolarge":
+		blk = append([]byte{}, vfMetaPseudo...)
+		for i := 0; i < 8; i++ {
+			blk = append(blk, vfHLit(fmt.Sprintf("x-pad-%d", i), strings.Repeat("p", 60))...)
+		}
+		blk = append(blk, vfHIncr(en, ev)...) // still has to reach the table although nothing is emitted any more
+	case "ref":
+		blk = append([]byte{}, vfMetaPseudo...)
+		for i := range table { // oldest first; the newest entry has index 62
+			blk = append(blk, vfHInt(7, 0x80, 62+len(table)-1-i)...)
+		}
+	}
+	if kind == "okcont" {
+		k := len(blk) / 2
+		return append(vfFrameBytes(1, 0x1, sid, false, blk[:k]), vfFrameBytes(9, 0x4, sid, false, blk[k:])...)
+	}
+	return vfFrameBytes(1, 0x5, sid, false, blk)
+}
+
+func TestVFC19Meta(t *testing.T) {
+	res := &vfResult{Driver: "c19meta", Actions: map[string]int{}, Extra: map[string]any{}}
+	defer res.write()
+	b, err := os.ReadFile(os.Getenv("VF_VECTORS"))
+	if err != nil {
+		t.Fatal(err)
+	}
+	var states []vfMetaState
+	if err := json.Unmarshal(b, &states); err != nil {
+		t.Fatal(err)
+	}
+	byHist := map[string]vfMetaState{}
+	maxLen := 0
+	for _, s := range states {
+		byHist[strings.Join(s.Hist, ",")] = s
+		if len(s.Hist) > maxLen {
+			maxLen = len(s.Hist)
+		}
+	}
+	for _, full := range states {
+		if len(full.Hist) != maxLen {
+			continue
+		}
+		// the whole history as one byte stream through one Framer
+		var stream []byte
+		for i, k := range full.Hist {
+			prefix := byHist[strings.Join(full.Hist[:i], ",")]
+			stream = append(stream, vfMetaBlock(k, i+1, uint32(1+2*i), prefix.Table)...)
+		}
+		fr := NewFramer(io.Discard, bytes.NewReader(stream))
+		fr.ReadMetaHeaders = hpack.NewDecoder(4096, nil)
+		fr.MaxHeaderListSize = 400
+		for i, k := range full.Hist {
+			want := byHist[strings.Join(full.Hist[:i+1], ",")]
+			res.Steps++
+			res.Actions[k]++
+			var f Frame
+			var rerr error
+			pan := func() (p any) {
+				defer func() { p = recover() }()
+				f, rerr = fr.ReadFrame()
+				return nil
+			}()
+			got := "?"
+			var fields []hpack.HeaderField
+			switch {
+			case pan != nil:
+				got = fmt.Sprintf("panic: %v", pan)
+			case rerr != nil:
+				if se, ok := rerr.(StreamError); ok && se.Code == ErrCodeProtocol {
+					got = "stream_error"
+					res.Extra["last_stream_error"] = fmt.Sprintf("%v cause=%v", se, se.Cause)
+				} else {
+					got = "error: " + rerr.Error()
+				}
+			default:
+				mh, ok := f.(*MetaHeadersFrame)
+				if !ok {
+					got = fmt.Sprintf("frame %T", f)
+				} else if mh.Truncated {
+					got = "truncated"
+				} else {
+					got = "fields"
+					fields = mh.Fields
+				}
+			}
+			bad := got != want.Out.R
+			if !bad && got == "fields" {
+				// pseudo-headers first, then exactly the entries the specification lists, oldest first
+				var names []string
+				for _, hf := range fields {
+					if !strings.HasPrefix(hf.Name, ":") {
+						names = append(names, hf.Name+"="+hf.Value)
+					}
+				}
+				var wantNames []string
+				for _, n := range want.Out.Dyn {
+					en, ev := vfMetaEntry(n)
+					wantNames = append(wantNames, en+"="+ev)
+				}
+				if strings.Join(names, ";") != strings.Join(wantNames, ";") || len(fields) != 4+len(wantNames) {
+					bad = true
+					got = fmt.Sprintf("fields %v", fields)
+				}
+			}
+			if bad {
+				res.violate(map[string]any{"check": "C19", "kind": "meta_headers", "block": k},
+					fmt.Sprintf("header blocks %v: block %d (%s) came back as %s, specification says %s with entries %v", full.Hist, i+1, k, got, want.Out.R, want.Out.Dyn),
+					map[string]any{"history": full.Hist, "block": i + 1})
+				break
+			}
+			if rerr != nil {
+				if _, ok := rerr.(StreamError); !ok {
+					break
+				}
+			}
+		}
+		res.Paths++
+	}
 }
